@@ -137,6 +137,13 @@ def summary(v):
                     continue
                 if isinstance(t, ast.Attribute):
                     tt = [v.term(t.value, at=st), v.ctx.mk(("str", t.attr))]
+                    if isinstance(st, ast.Assign) and isinstance(t.value, ast.Name) and t.value.id == "self" and \
+                            _setter_ignores_none(v.repo, v.ev.self_type, t.attr):
+                        # `self.p = x` where the setter of p does nothing for None happens only when x is not None
+                        # (guarding the assignment at the call site changes nothing)
+                        rhs_ = pairwise[id(t)] if pairwise and id(t) in pairwise else st.value
+                        xt = v.term(rhs_, at=st)
+                        cond = v.ev._bool("and", [cond, v.ev._cmpn("isnot", xt, v.ctx.mk(("const", None)))])
                 elif isinstance(t, ast.Subscript):
                     tt = [v.term(t.value, at=st), ev._index(t.slice, v.cfg.node(st), None)]
                 else:
@@ -234,6 +241,39 @@ def summary(v):
             if roots and not (roots & used):
                 dead.append(("unused-call", "", full_term(v, st), [t], loop_ctx(st)))
     return exits, effects + dead
+
+
+_SETTER_NONE = {}
+
+
+def _setter_ignores_none(repo, cls, attr):
+    """the setter of property `attr` does nothing at all when it is given None: its whole body stands under
+    `if <param> is not None:` (or begins with the guard `if <param> is None: return`)"""
+    if not cls:
+        return False
+    key = (repo.root, repo.digest, cls, attr)
+    if key in _SETTER_NONE:
+        return _SETTER_NONE[key]
+    res = False
+    try:
+        fi = repo.resolve_setter(cls, attr)
+        if fi is not None and len(fi.node.args.args) == 2:
+            p = fi.node.args.args[1].arg
+            body = body_nodoc(fi.node)
+
+            def is_none_test(t, positive):
+                return isinstance(t, ast.Compare) and len(t.ops) == 1 and isinstance(t.left, ast.Name) and t.left.id == p and \
+                    isinstance(t.ops[0], ast.Is if positive else ast.IsNot) and isinstance(t.comparators[0], ast.Constant) and \
+                    t.comparators[0].value is None
+            if len(body) == 1 and isinstance(body[0], ast.If) and not body[0].orelse and is_none_test(body[0].test, False):
+                res = True
+            elif body and isinstance(body[0], ast.If) and not body[0].orelse and is_none_test(body[0].test, True) and \
+                    len(body[0].body) == 1 and isinstance(body[0].body[0], ast.Return) and body[0].body[0].value is None:
+                res = True
+    except Exception:       # noqa: BLE001
+        res = False
+    _SETTER_NONE[key] = res
+    return res
 
 
 _FRESH_CALLS = {"list", "dict", "set", "sorted", "tuple", "np.zeros", "np.ones", "np.empty", "np.full", "np.zeros_like",
@@ -445,12 +485,44 @@ def _int_vars(va, terms):
     return out, {k: v_ for k, v_ in lows.items() if any(x.single_atom() == k for x in out)}
 
 
+def _len_set_pre(va, variables):
+    """len(set(X)) and len(X) are not independent: 0 <= len(set(X)) <= len(X), and one is 0 exactly when the other is.
+    -> a predicate over the value tuple of `variables` (None when no such pair is among them)"""
+    ctx = va.ctx
+    pairs = []
+    for i, x in enumerate(variables):
+        hx = ctx.head_of(x)
+        if not (hx and hx[0] == "call" and hx[1] == "len"):
+            continue
+        ax = ctx.args_of(x)[0]
+        ha = ctx.head_of(ax)
+        if ha and ha[0] == "call" and ha[1] == "set" and len(ctx.args_of(ax)) == 1:
+            inner = ctx.args_of(ax)[0]
+            for j, y in enumerate(variables):
+                hy = ctx.head_of(y)
+                if j != i and hy and hy[0] == "call" and hy[1] == "len" and ctx.eq(ctx.args_of(y)[0], inner):
+                    pairs.append((i, j))
+    if not pairs:
+        return None
+    return lambda vals: all(vals[i] <= vals[j] and (vals[i] == 0) == (vals[j] == 0) for i, j in pairs)
+
+
 def _implies(va, a, b):
     from .lib import cond_implies
     vs, lows = _int_vars(va, (a, b))
-    if not lows:
+    pre = _len_set_pre(va, vs)
+    if not lows and pre is None:
         return cond_implies(va, a, b)
-    return cond_implies(va, a, b, vs, lo=0, lows=lows)
+    return cond_implies(va, a, b, vs, lo=0, lows=lows, pre=pre)
+
+
+def _lift_cond(va, c):
+    """a condition over gated alternatives as the disjunction of its alternatives: P(gphi(g -> a | h -> b)) is
+    (g and P(a)) or (h and P(b))"""
+    alts = alternatives(va, c)
+    if alts is None or len(alts) <= 1:
+        return c
+    return va.ev._bool("or", [va.ev._bool("and", [g, x]) for g, x in alts])
 
 
 def _same_cond(va, ca, cb):
@@ -458,7 +530,13 @@ def _same_cond(va, ca, cb):
     if va.eq(ca, cb):
         return True
     vs, lows = _int_vars(va, (ca, cb))
-    return cond_equiv(va, ca, cb, vs, lo=0, lows=lows)
+    if cond_equiv(va, ca, cb, vs, lo=0, lows=lows, pre=_len_set_pre(va, vs)):
+        return True
+    la, lb = _lift_cond(va, ca), _lift_cond(va, cb)
+    if la is ca and lb is cb:
+        return False
+    vs, lows = _int_vars(va, (la, lb))
+    return cond_equiv(va, la, lb, vs, lo=0, lows=lows, pre=_len_set_pre(va, vs))
 
 
 def _same_items(va, a, b):
@@ -494,7 +572,116 @@ def equivalent(repo_cur, repo_ref, qual):
         lib._DEADLINE[0] = None
 
 
+class _LookupForms(ast.NodeTransformer):
+    """Forms used only while two versions of one function are compared (the rules never see them): asking forgiveness and
+    asking permission for one dictionary key are the same look-up.
+
+      try: S[D[K]]  except KeyError: A  else: B      ->   if K in D: S[D[K]]; B  else: A
+      D.get(K, X)  /  D.get(K)                       ->   D[K] if K in D else X / None
+
+    D is a plain name that the function also subscripts or membership-tests elsewhere (it is used as a mapping), K a string
+    constant, S one statement whose only subscript is D[K] and whose calls are methods of that value or `re` functions on it
+    (none of which raises KeyError)."""
+
+    def __init__(self, fn):
+        self.mappings = set()
+        for n in ast.walk(fn):
+            if isinstance(n, ast.Subscript) and isinstance(n.value, ast.Name) and isinstance(n.slice, ast.Constant) \
+                    and isinstance(n.slice.value, str):
+                self.mappings.add(n.value.id)
+            if isinstance(n, ast.Compare) and len(n.ops) == 1 and isinstance(n.ops[0], (ast.In, ast.NotIn)) and \
+                    isinstance(n.comparators[0], ast.Name) and isinstance(n.left, ast.Constant) and isinstance(n.left.value, str):
+                self.mappings.add(n.comparators[0].id)
+        # ... or a parameter / local of the function whose .get is called with a string key
+        own = {a.arg for a in fn.args.posonlyargs + fn.args.args + fn.args.kwonlyargs} | \
+            {n.id for n in ast.walk(fn) if isinstance(n, ast.Name) and isinstance(n.ctx, ast.Store)}
+        for n in ast.walk(fn):
+            if isinstance(n, ast.Call) and isinstance(n.func, ast.Attribute) and n.func.attr == "get" and \
+                    isinstance(n.func.value, ast.Name) and n.func.value.id in own and n.args and \
+                    isinstance(n.args[0], ast.Constant) and isinstance(n.args[0].value, str):
+                self.mappings.add(n.func.value.id)
+        self.changed = False
+
+    def visit_Call(self, node):
+        self.generic_visit(node)
+        f = node.func
+        if isinstance(f, ast.Attribute) and f.attr == "get" and isinstance(f.value, ast.Name) and f.value.id in self.mappings \
+                and 1 <= len(node.args) <= 2 and not node.keywords and isinstance(node.args[0], ast.Constant) \
+                and isinstance(node.args[0].value, str):
+            key = node.args[0]
+            dflt = node.args[1] if len(node.args) == 2 else ast.Constant(value=None)
+            new = ast.IfExp(test=ast.Compare(left=key, ops=[ast.In()], comparators=[ast.Name(id=f.value.id, ctx=ast.Load())]),
+                            body=ast.Subscript(value=ast.Name(id=f.value.id, ctx=ast.Load()), slice=key, ctx=ast.Load()),
+                            orelse=dflt)
+            self.changed = True
+            return ast.fix_missing_locations(ast.copy_location(new, node))
+        return node
+
+    def visit_Try(self, node):
+        self.generic_visit(node)
+        if node.finalbody or len(node.handlers) != 1 or len(node.body) != 1:
+            return node
+        h = node.handlers[0]
+        if h.name is not None or not (isinstance(h.type, ast.Name) and h.type.id == "KeyError"):
+            return node
+        st = node.body[0]
+        if not isinstance(st, (ast.Assign, ast.Expr)):
+            return node
+        subs = [n for n in ast.walk(st) if isinstance(n, ast.Subscript) and isinstance(n.ctx, ast.Load)]
+        if len(subs) != 1:
+            return node
+        sub = subs[0]
+        if not (isinstance(sub.value, ast.Name) and isinstance(sub.slice, ast.Constant) and isinstance(sub.slice.value, str)):
+            return node
+        if any(isinstance(n, ast.Subscript) and not isinstance(n.ctx, ast.Load) for n in ast.walk(st)):
+            return node
+        # every call in S is a method of the looked-up value (str / list methods) or a function of the `re` module
+        for n in ast.walk(st):
+            if isinstance(n, ast.Call):
+                f = n.func
+                ok = isinstance(f, ast.Attribute) and (
+                    any(x is sub for x in ast.walk(f.value)) or (isinstance(f.value, ast.Name) and f.value.id == "re"))
+                if not ok:
+                    return node
+        test = ast.Compare(left=sub.slice, ops=[ast.In()], comparators=[ast.Name(id=sub.value.id, ctx=ast.Load())])
+        new = ast.If(test=test, body=[st] + list(node.orelse), orelse=list(h.body) or [ast.Pass()])
+        self.changed = True
+        return ast.fix_missing_locations(ast.copy_location(new, node))
+
+
+def _lookup_forms(fn_node):
+    """a copy of the function in the look-up forms above (canonical control flow restored), or None when nothing applies"""
+    import copy
+    from .model import _CanonicalBranches
+    tr = _LookupForms(fn_node)
+    new = tr.visit(copy.deepcopy(fn_node))
+    if not tr.changed:
+        return None
+    new = _CanonicalBranches().visit(new)
+    ast.fix_missing_locations(new)
+    return new
+
+
 def _equivalent(repo_cur, repo_ref, qual):
+    ok, note = _equivalent_as_is(repo_cur, repo_ref, qual)
+    if ok:
+        return ok, note
+    fc, fr = repo_cur.funcs[qual], repo_ref.funcs[qual]
+    nc_, nr_ = _lookup_forms(fc.node), _lookup_forms(fr.node)
+    if nc_ is None and nr_ is None:
+        return ok, note
+    oc, orr = fc.node, fr.node
+    try:
+        fc.node, fr.node = nc_ or oc, nr_ or orr
+        ok2, note2 = _equivalent_as_is(repo_cur, repo_ref, qual)
+    finally:
+        fc.node, fr.node = oc, orr
+    if ok2:
+        return True, note2 + " (dictionary look-ups compared in one form)"
+    return ok, note + " | with dictionary look-ups in one form: " + note2
+
+
+def _equivalent_as_is(repo_cur, repo_ref, qual):
     from .lib import FV
     fc, fr = repo_cur.funcs[qual], repo_ref.funcs[qual]
     if ast.dump(fc.node.args) != ast.dump(fr.node.args) or \
